@@ -122,7 +122,7 @@ func (amp *AlignedAllocator) AppendString(pbuf *[]byte, s string) *[]byte {
 //go:norace
 func (amp *AlignedAllocator) Free(pbuf *[]byte) {
 	size := cap(*pbuf)
-	if (size&minAlignedBufferSizeMask) != 0 || size > maxAlignedBufferSize {
+	if size == 0 || (size&minAlignedBufferSizeMask) != 0 || size > maxAlignedBufferSize {
 		return
 	}
 	amp.incrFree(pbuf)
